@@ -1306,7 +1306,7 @@ Theorem step_reads_only ver st o :
   | OGetDigest _ _ _ | OMatch _ => fst (step ver st o) = st
   | OCreateDigest _ _ => bg_segs (fst (step ver st o)) = bg_segs st
   | OCreateSegs _ _ _ | OCreateSegsCbfs _ _ _ _ _ | OSetSegs _ _ => bg_digs (fst (step ver st o)) = bg_digs st
-  | OSetAlgs _ => bg_segs (fst (step ver st o)) = bg_segs st
+  | OSetAlgs _ | OEditDigs _ => bg_segs (fst (step ver st o)) = bg_segs st
   end.
 Proof.
   destruct o; cbn [step fst]; try reflexivity.
@@ -1428,7 +1428,7 @@ Qed.
 Lemma create_digest_loop_total ver l img segs p : forall digs,
   Forall (fun ad => alg_supported ver (fst ad) = true) digs ->
   digest_preimage l img segs = Ok p ->
-  create_digest_loop ver l img segs digs = (map (fun ad => (fst ad, Some p)) digs, Ok tt).
+  create_digest_loop ver l img segs digs = (map (fun ad => (fst ad, Some (fst ad, p))) digs, Ok tt).
 Proof.
   induction 1 as [|[a old] t Ha Ht IH]; intros Hp; [reflexivity|].
   cbn [create_digest_loop map fst]. cbn [fst] in Ha.
@@ -1469,7 +1469,7 @@ Theorem run_pipeline_any_history ver st flags fit l img :
   let p := concat (map (fun s => slice img (spec_offset (zlen img) (sg_base s)) (sg_size s))
                        (filter included segs)) in
   run ver st [OCreateSegs 0 flags (Some fit); OCreateDigest l img; OMatch img] =
-  (mkBG (set_nth 0 segs (bg_segs st)) (map (fun ad => (fst ad, Some p)) (bg_digs st)),
+  (mkBG (set_nth 0 segs (bg_segs st)) (map (fun ad => (fst ad, Some (fst ad, p))) (bg_digs st)),
    [RUnit (Ok tt); RUnit (Ok tt); RBool (Ok true)]).
 Proof.
   intros Hc Ha Hwf Hin Halgs Hne segs p.
@@ -1488,14 +1488,14 @@ Proof.
   replace (se_count st =? 0) with false by (symmetry; apply Z.eqb_neq; lia).
   rewrite Hs1. change (bg_digs st1) with (bg_digs st).
   rewrite (create_digest_loop_total ver l img segs p _ Halgs Hp).
-  set (st2 := mkBG (bg_segs st1) (map (fun ad => (fst ad, Some p)) (bg_digs st))).
+  set (st2 := mkBG (bg_segs st1) (map (fun ad => (fst ad, Some (fst ad, p))) (bg_digs st))).
   assert (Hm : match_stored ver st2 img = Ok true).
   { unfold match_stored. change (se_count st2) with (se_count st1). rewrite Hc1.
     replace (se_count st =? 0) with false by (symmetry; apply Z.eqb_neq; lia).
     change (segs_of st2 0) with (segs_of st1 0). rewrite Hs1.
     cbn [bg_digs st2]. destruct (bg_digs st) as [|[a d] t] eqn:Hd; [congruence|].
     cbn [map fst]. inversion Halgs as [|x y Hax Hay]; subst. cbn [fst] in Hax.
-    rewrite (alg_supported_hashable _ _ Hax), Hv. cbn [bind]. rewrite zlist_eqb_refl. reflexivity. }
+    rewrite (alg_supported_hashable _ _ Hax), Hv. cbn [bind]. rewrite Z.eqb_refl, zlist_eqb_refl. reflexivity. }
   rewrite Hm. reflexivity.
 Qed.
 
@@ -1535,3 +1535,247 @@ Proof.
   rewrite <- Hf1.
   apply stitch_frame_region; rewrite ?Hl; assumption.
 Qed.
+
+(* ================================================================== *)
+(** * round 5 *)
+
+(** ** the size field of the ACM header: a 32-bit word, all four bytes count
+
+    StitchFITEntries learns the size of the ACM that is in the image from
+    tools.LookupACMSize: the little-endian 32-bit word at offset 24 of the header, in units
+    of 4 bytes.  An ACM of 256 KiB or more has a size field of 0x10000 or more: its bytes 26
+    and 27 are not zero. *)
+
+Definition acm_field (hdr : list Z) : Z := le32 (skipn 24 hdr).
+
+Lemma acm_field_bytes hdr :
+  acm_field hdr = nth 24 hdr 0 + 256 * nth 25 hdr 0 + 65536 * nth 26 hdr 0 + 16777216 * nth 27 hdr 0.
+Proof. unfold acm_field, le32. rewrite !nth_skipn_add. reflexivity. Qed.
+
+(** the declared size is 4 times the whole field (as long as the product fits the uint32 the
+    code computes in: fields below 2^30, sizes below 4 GiB) *)
+Lemma acm_size_field hdr : 0 <= acm_field hdr < 1073741824 -> acm_size hdr = 4 * acm_field hdr.
+Proof.
+  intros H. unfold acm_size. fold (acm_field hdr). rewrite wrap32_small; unfold W32; lia.
+Qed.
+
+Lemma acm_size_all_four_bytes hdr :
+  0 <= acm_field hdr < 1073741824 ->
+  acm_size hdr = 4 * nth 24 hdr 0 + 1024 * nth 25 hdr 0 + 262144 * nth 26 hdr 0 + 67108864 * nth 27 hdr 0.
+Proof. intros H. rewrite (acm_size_field _ H), acm_field_bytes. lia. Qed.
+
+(** two headers that differ in the size field (in any of its four bytes) declare different sizes *)
+Lemma acm_size_injective h1 h2 :
+  0 <= acm_field h1 < 1073741824 -> 0 <= acm_field h2 < 1073741824 ->
+  acm_size h1 = acm_size h2 -> acm_field h1 = acm_field h2.
+Proof. intros H1 H2. rewrite (acm_size_field _ H1), (acm_size_field _ H2). lia. Qed.
+
+(** StitchFITEntries on a startup-ACM entry, decided completely: the new ACM is written (at the
+    entry's offset) iff its length is 4 times the size field of the ACM header found there;
+    otherwise the file is left alone and the call fails.  No bound on the size: ACMs of
+    256 KiB and more (size field >= 0x10000) are stitched like small ones. *)
+Theorem stitch_acm_decided l n re file e new :
+  anchored l n re -> BASE - re <= fe_addr e < BASE ->
+  spec_offset re (fe_addr e) < zlen file ->
+  0 < acm_field (read_padded file (spec_offset re (fe_addr e)) 32) < 1073741824 ->
+  new <> [] ->
+  stitch_acm l n file e new =
+  if zlen new =? 4 * acm_field (read_padded file (spec_offset re (fe_addr e)) 32)
+  then (write_at file (spec_offset re (fe_addr e)) new, true) else (file, false).
+Proof.
+  intros Ha Hw Hin Hf Hn. unfold stitch_acm. destruct new as [|b t]; [contradiction Hn; reflexivity|].
+  rewrite (calc_offset_anchored _ _ _ _ Ha Hw).
+  pose proof (anchored_len_lt _ _ _ Ha) as Hre.
+  set (off := spec_offset re (fe_addr e)) in *.
+  assert (Hoff : off < W63) by (unfold off, spec_offset, W63, W32 in *; lia).
+  replace (W63 <=? off) with false by (symmetry; apply Z.leb_gt; assumption).
+  replace (zlen file <=? off) with false by (symmetry; apply Z.leb_gt; assumption).
+  rewrite acm_size_field by lia.
+  replace (4 * acm_field (read_padded file off 32) =? 0) with false by (symmetry; apply Z.eqb_neq; lia).
+  destruct (zlen (b :: t) =? 4 * acm_field (read_padded file off 32)); reflexivity.
+Qed.
+
+(** ... and then the entry reads back as the new ACM, byte for byte *)
+Theorem stitch_acm_reread l n re file e new :
+  anchored l n re -> BASE - re <= fe_addr e < BASE ->
+  spec_offset re (fe_addr e) < zlen file ->
+  0 < acm_field (read_padded file (spec_offset re (fe_addr e)) 32) < 1073741824 ->
+  zlen new = 4 * acm_field (read_padded file (spec_offset re (fe_addr e)) 32) ->
+  snd (stitch_acm l n file e new) = true /\
+  forall k, 0 <= k < zlen new ->
+  zn (fst (stitch_acm l n file e new)) (spec_offset re (fe_addr e) + k) = zn new k.
+Proof.
+  intros Ha Hw Hin Hf Hl.
+  assert (Hn : new <> []) by (intros E; subst new; change (zlen (@nil Z)) with 0 in Hl; lia).
+  rewrite (stitch_acm_decided _ _ _ _ _ _ Ha Hw Hin Hf Hn).
+  replace (zlen new =? _) with true by (symmetry; apply Z.eqb_eq; assumption).
+  cbn [fst snd]. split; [reflexivity|]. intros k Hk.
+  assert (H0 : 0 <= spec_offset re (fe_addr e)) by (unfold spec_offset; lia).
+  rewrite write_at_zn by lia.
+  replace (spec_offset re (fe_addr e) <=? spec_offset re (fe_addr e) + k) with true by (symmetry; apply Z.leb_le; lia).
+  replace (spec_offset re (fe_addr e) + k <? spec_offset re (fe_addr e) + zlen new) with true
+    by (symmetry; apply Z.ltb_lt; lia).
+  cbn [andb]. f_equal. lia.
+Qed.
+
+Lemma read_padded_mid pre h post :
+  length h = 32%nat -> read_padded (pre ++ h ++ post) (zlen pre) 32 = h.
+Proof.
+  intros Hh. unfold read_padded, slice, zlen. rewrite Nat2Z.id.
+  rewrite skipn_app, skipn_all, Nat.sub_diag. cbn [skipn app].
+  change (Z.to_nat 32) with 32%nat. rewrite <- Hh.
+  rewrite firstn_app, firstn_all, Nat.sub_diag. cbn [firstn]. rewrite app_nil_r, Nat.sub_diag.
+  cbn [repeat]. apply app_nil_r.
+Qed.
+
+(** a 256 KiB ACM (size field 0x10000: bytes 24 and 25 are zero, byte 26 is 1) at offset 4096 of
+    a 264 KiB bare BIOS region: a new ACM of 256 KiB is accepted, one of any other length
+    refused *)
+Definition hdr_256k : list Z := repeat 0 24 ++ [0; 0; 1; 0] ++ repeat 0 4.
+Definition file_256k : list Z :=
+  repeat 7 (Z.to_nat 4096) ++ hdr_256k ++ (repeat 9 (Z.to_nat 262112) ++ repeat 7 (Z.to_nat 4096)).
+
+Lemma stitch_acm_256k_witness :
+  let e := mkFE 2 (4294967296 - 270336 + 4096) 0 in
+  zlen file_256k = 270336 /\ acm_size hdr_256k = 262144 /\
+  (forall new, zlen new = 262144 ->
+     stitch_acm LBiosOnly 270336 file_256k e new = (write_at file_256k 4096 new, true)) /\
+  (forall new, new <> [] -> zlen new <> 262144 ->
+     stitch_acm LBiosOnly 270336 file_256k e new = (file_256k, false)).
+Proof.
+  cbn zeta. set (e := mkFE 2 (4294967296 - 270336 + 4096) 0).
+  assert (Hpre : zlen (repeat 7 (Z.to_nat 4096)) = 4096).
+  { unfold zlen. rewrite repeat_length. apply Z2Nat.id. lia. }
+  assert (Hh : length hdr_256k = 32%nat) by reflexivity.
+  assert (Hlen : zlen file_256k = 270336).
+  { unfold file_256k. rewrite !zlen_app, Hpre. unfold zlen at 1. rewrite Hh.
+    unfold zlen. rewrite !repeat_length, !Z2Nat.id by lia. reflexivity. }
+  assert (Ha : anchored LBiosOnly 270336 270336) by (cbn; unfold W32; lia).
+  assert (Hw : BASE - 270336 <= fe_addr e < BASE) by (unfold BASE; cbn; lia).
+  assert (Hoff : spec_offset 270336 (fe_addr e) = 4096) by (unfold spec_offset, BASE; cbn; lia).
+  assert (Hhdr : read_padded file_256k 4096 32 = hdr_256k).
+  { rewrite <- Hpre at 1. unfold file_256k. apply read_padded_mid. exact Hh. }
+  assert (Hfield : acm_field hdr_256k = 65536) by (vm_compute; reflexivity).
+  split; [exact Hlen|]. split; [vm_compute; reflexivity|]. split.
+  - intros new Hl.
+    assert (Hn : new <> []) by (intros E; subst new; change (zlen (@nil Z)) with 0 in Hl; lia).
+    rewrite (stitch_acm_decided LBiosOnly 270336 270336 file_256k e new Ha Hw);
+      rewrite ?Hoff, ?Hhdr, ?Hfield; try lia; try assumption.
+    replace (zlen new =? 4 * 65536) with true by (symmetry; apply Z.eqb_eq; lia). reflexivity.
+  - intros new Hn Hl.
+    rewrite (stitch_acm_decided LBiosOnly 270336 270336 file_256k e new Ha Hw);
+      rewrite ?Hoff, ?Hhdr, ?Hfield; try lia; try assumption.
+    replace (zlen new =? 4 * 65536) with false by (symmetry; apply Z.eqb_neq; lia). reflexivity.
+Qed.
+
+(** ** digest buffers a manifest already carries
+
+    CreateIBBDigest on a manifest whose digest entries already hold buffers: the digest of
+    an earlier call, of another (longer) algorithm, bytes of any length a loaded manifest
+    came with.  The stored digest afterwards is the hash of the segments' bytes under the
+    entry's CURRENT algorithm and nothing else: the old buffer decides nothing. *)
+
+Lemma create_digest_loop_ignores_old ver l img segs : forall digs digs',
+  map fst digs = map fst digs' ->
+  snd (create_digest_loop ver l img segs digs) = snd (create_digest_loop ver l img segs digs') /\
+  (snd (create_digest_loop ver l img segs digs) = Ok tt ->
+   fst (create_digest_loop ver l img segs digs) = fst (create_digest_loop ver l img segs digs')).
+Proof.
+  induction digs as [|[a old] t IH]; intros [|[a' old'] t'] E; cbn [map fst] in E; try discriminate.
+  - split; reflexivity.
+  - inversion E as [[Ea Et]]. subst a'. cbn [create_digest_loop].
+    destruct (alg_name_roundtrips ver a); [|split; [reflexivity|discriminate]].
+    destruct (get_ibbs_digest ver a l img segs) as [ap| | |]; cbn [snd unit_of];
+      try (split; [reflexivity|discriminate]).
+    destruct (IH t' Et) as [IH1 IH2].
+    destruct (create_digest_loop ver l img segs t) as [d1 r1].
+    destruct (create_digest_loop ver l img segs t') as [d2 r2]. cbn [fst snd] in *.
+    split; [assumption|]. intros Hr. f_equal. apply IH2. assumption.
+Qed.
+
+(** unconditional characterisation of a successful CreateIBBDigest: every entry keeps its
+    algorithm and holds the digest of the same bytes, whatever it held before *)
+Lemma create_digest_loop_ok_inv ver l img segs : forall digs d,
+  create_digest_loop ver l img segs digs = (d, Ok tt) ->
+  Forall (fun ad => alg_supported ver (fst ad) = true) digs /\
+  (digs = [] /\ d = [] \/
+   exists p, digest_preimage l img segs = Ok p /\ d = map (fun ad => (fst ad, Some (fst ad, p))) digs).
+Proof.
+  induction digs as [|[a old] t IH]; intros d E.
+  - cbn in E. inversion E. split; [constructor|]. left. split; reflexivity.
+  - cbn [create_digest_loop] in E.
+    destruct (alg_name_roundtrips ver a) eqn:Hr; [|inversion E].
+    apply alg_roundtrips_supported in Hr.
+    unfold get_ibbs_digest in E. rewrite Hr in E.
+    destruct (digest_preimage l img segs) as [p| | |] eqn:Hp; cbn [bind unit_of] in E; try (inversion E; fail).
+    destruct (create_digest_loop ver l img segs t) as [t' r] eqn:Et. inversion E; subst.
+    destruct (IH t' eq_refl) as [Hall Hd]. split; [constructor; assumption|].
+    right. exists p. split; [reflexivity|]. cbn [map fst snd]. f_equal.
+    destruct Hd as [[-> ->]|(q & Hq & ->)]; [reflexivity|]. apply Ok_inj' in Hq. subst q. reflexivity.
+Qed.
+
+Lemma edit_entry_alg old e : fst (edit_entry old e) = edit_alg e.
+Proof.
+  destruct e as [i a|a d]; cbn [edit_entry edit_alg]; [|reflexivity].
+  destruct (nth_error old i) as [[a0 d]|]; reflexivity.
+Qed.
+
+(** what the caller's rewrite of the digest list leaves: the listed algorithms in the listed
+    order; no segment list changes *)
+Theorem step_edit_digs ver st es :
+  let st' := fst (step ver st (OEditDigs es)) in
+  map fst (bg_digs st') = map edit_alg es /\ bg_segs st' = bg_segs st /\
+  snd (step ver st (OEditDigs es)) = RNone.
+Proof.
+  cbn [step fst snd bg_digs bg_segs]. split; [|split; reflexivity].
+  rewrite map_map. apply map_ext. intros e. apply edit_entry_alg.
+Qed.
+
+(** The generation chain after the caller rewrote the digest list in ANY way (entries kept
+    with their buffers, moved, their algorithm changed to a shorter or longer one, new
+    entries with arbitrary buffers): one digest per listed algorithm, each the hash of THIS
+    image's bytes, and the validator accepts. *)
+Theorem run_pipeline_after_digest_edit ver st es flags fit l img :
+  0 < se_count st ->
+  anchored l (zlen img) (zlen img) ->
+  Forall (fun e => is_startup e = true -> fit_entry_wf e) fit ->
+  Forall (fun s => included s = true -> seg_in_region (zlen img) img s)
+         (map (fun e => mkSeg (fe_addr e) (16 * fe_size e) flags) (filter is_startup fit)) ->
+  Forall (fun e => alg_supported ver (edit_alg e) = true) es ->
+  es <> [] ->
+  let segs := map (fun e => mkSeg (fe_addr e) (16 * fe_size e) flags) (filter is_startup fit) in
+  let p := concat (map (fun s => slice img (spec_offset (zlen img) (sg_base s)) (sg_size s))
+                       (filter included segs)) in
+  run ver st [OEditDigs es; OCreateSegs 0 flags (Some fit); OCreateDigest l img; OMatch img] =
+  (mkBG (set_nth 0 segs (bg_segs st)) (map (fun e => (edit_alg e, Some (edit_alg e, p))) es),
+   [RNone; RUnit (Ok tt); RUnit (Ok tt); RBool (Ok true)]).
+Proof.
+  intros Hc Ha Hwf Hin Halgs Hne segs p.
+  set (st1 := mkBG (bg_segs st) (map (edit_entry (bg_digs st)) es)).
+  assert (H1 : step ver st (OEditDigs es) = (st1, RNone)) by reflexivity.
+  assert (Hc1 : 0 < se_count st1) by exact Hc.
+  assert (Halgs1 : Forall (fun ad => alg_supported ver (fst ad) = true) (bg_digs st1)).
+  { cbn [bg_digs st1]. rewrite Forall_map. eapply Forall_impl; [|exact Halgs].
+    cbn beta. intros e He. rewrite edit_entry_alg. exact He. }
+  assert (Hne1 : bg_digs st1 <> []).
+  { cbn [bg_digs st1]. destruct es; [congruence|discriminate]. }
+  pose proof (run_pipeline_any_history ver st1 flags fit l img Hc1 Ha Hwf Hin Halgs1 Hne1) as Hrun.
+  cbn zeta in Hrun. fold segs in Hrun. fold p in Hrun.
+  change (run ver st (OEditDigs es :: [OCreateSegs 0 flags (Some fit); OCreateDigest l img; OMatch img]))
+    with (let '(sta, r) := step ver st (OEditDigs es) in
+          let '(st2, rs) := run ver sta [OCreateSegs 0 flags (Some fit); OCreateDigest l img; OMatch img] in
+          (st2, r :: rs)).
+  rewrite H1, Hrun. cbn [bg_segs bg_digs st1]. f_equal. f_equal.
+  rewrite map_map. apply map_ext. intros e. rewrite edit_entry_alg. reflexivity.
+Qed.
+
+(** a CBnT manifest that carries a SHA384 digest of other bytes (entry 0), bytes that are no
+    digest (entry 1) and an empty buffer; the caller moves entry 0 to the end and relabels it
+    SHA256 (a SHORTER digest than the buffer it keeps), relabels entry 1 SHA1: after
+    CreateIBBDigest every entry holds the hash of the image's bytes [16,32) *)
+Lemma run_digest_edit_witness :
+  run 2 (mkBG [[mkSeg (4294967296 - 48) 16 0]] [(12, Some (12, [1; 2; 3])); (11, None); (18, None)])
+      [OEditDigs [EKeep 1 4; ENew 18 None; EKeep 0 11]; OCreateDigest (LIFD 16 48) (seqZ 0 64); OMatch (seqZ 0 64)] =
+  (mkBG [[mkSeg (4294967296 - 48) 16 0]] [(4, Some (4, seqZ 16 16)); (18, Some (18, seqZ 16 16)); (11, Some (11, seqZ 16 16))],
+   [RNone; RUnit (Ok tt); RBool (Ok true)]).
+Proof. vm_compute. reflexivity. Qed.
